@@ -4,6 +4,7 @@ import (
 	"context"
 	"fmt"
 	"log"
+	"runtime/debug"
 	"strings"
 	"sync/atomic"
 	"time"
@@ -19,7 +20,10 @@ import (
 
 const WorkerBatchLimit int = 10
 
-var ErrTooManyErrors = fmt.Errorf("too many errors in parallel worker process")
+var (
+	ErrTooManyErrors = fmt.Errorf("too many errors in parallel worker process")
+	ErrPipelinePanic = fmt.Errorf("panic in check pipeline")
+)
 
 // ensure that the runner implements the same interface it consumes to indicate
 // the runner simply wraps the underlying runnable with extra features
@@ -172,7 +176,17 @@ func (o *Runner) parallelCheck(ctx context.Context, payloads []ocr2keepers.Upkee
 }
 
 func (o *Runner) wrapWorkerFunc() func(context.Context, []ocr2keepers.UpkeepPayload) ([]ocr2keepers.CheckResult, error) {
-	return func(ctx context.Context, payloads []ocr2keepers.UpkeepPayload) ([]ocr2keepers.CheckResult, error) {
+	return func(ctx context.Context, payloads []ocr2keepers.UpkeepPayload) (checkResults []ocr2keepers.CheckResult, err error) {
+		// the job runs on a worker goroutine that nothing recovers: a panic in
+		// the check pipeline is reported as a failed job instead of ending the
+		// process
+		defer func() {
+			if r := recover(); r != nil {
+				o.logger.Printf("recovered from panic in check pipeline: %v\n%s", r, debug.Stack())
+				checkResults, err = nil, fmt.Errorf("%w: %v", ErrPipelinePanic, r)
+			}
+		}()
+
 		start := time.Now()
 
 		allPayloadKeys := make([]string, len(payloads))
@@ -181,7 +195,7 @@ func (o *Runner) wrapWorkerFunc() func(context.Context, []ocr2keepers.UpkeepPayl
 		}
 
 		// perform check and update cache with result
-		checkResults, err := o.runnable.CheckUpkeeps(ctx, payloads...)
+		checkResults, err = o.runnable.CheckUpkeeps(ctx, payloads...)
 		if err != nil {
 			err = fmt.Errorf("%w: failed to check upkeep payloads for ids '%s'", err, strings.Join(allPayloadKeys, ", "))
 		} else {
